@@ -6,11 +6,31 @@ every list of call sizes; `runAcks` folds the step over the calls exactly as con
 `handle_input` calls do.  "Since the window was learned" is call-granular: the counter starts at 0
 and the first call counted is the one after the call that delivered the window message
 (DESIGN.md §9a reading 3).
+
+SESSION LEVEL (second half of the file; Lemmas/AckFrame.lean).  The step is tied to the two session models
+for EVERY state and EVERY operation:
+* `C17_server_every_call` / `C17_client_every_call`: in every state with outbound chunk size ≥ 1 (every
+  reachable state: `C17_server_reachable_call`, `C17_client_reachable_call`), every `handle_input` call —
+  any bytes, ending in results or in an error — leaves the counter at `ackStep`'s value; when no
+  acknowledgement is due the call is the plain drain; when one is due the session's serializer emits
+  exactly the Acknowledgement message carrying the count, as the FIRST result, and the rest is the drain;
+* who may touch the fields: the window changes exactly when a Window Acknowledgement Size message of the
+  peer is handled, to the announced value (`C17_server_window_from_peer_only`, `…client…`; after a call
+  whose messages are all handled it is the LAST one announced: `C17_server_window_is_last_announced`,
+  `…client…`) — not the session's own configured window, not Set Peer Bandwidth, not a command; no
+  application call changes the window or the counter (`C17_server_calls_leave_counter`, `…client…`); the
+  message loop never changes the counter, whatever it ends in (`C17_server_loop_leaves_counter`, `…client…`).
+NOT a theorem: that the messages handled in the drain never produce a second Acknowledgement packet (they
+do not: no handler sends one; read off the model, exercised by the `ack` family's oracle which counts the
+Acknowledgement messages in every call's output).
 -/
 import Rml.Model.ServerSession
 import Rml.Model.ClientSession
+import Rml.Lemmas.AckHop
+import Rml.Lemmas.SessSafe
+import Rml.Lemmas.AckFrame
 namespace Rml.C17
-open Rml Rml.Sess
+open Rml Rml.Bytes Rml.Chunk Rml.Amf0 Rml.Msgs Rml.Sess Rml.SerHist Rml.Emit Rml.Link Rml.Exchange Rml.WfSteps Rml.Workflow
 
 /-- consecutive input calls under a fixed window: the sequence numbers acknowledged (one entry per
     call, `none` = no acknowledgement in that call) and the final counter -/
@@ -126,5 +146,240 @@ theorem C17_client_uses_ackStep (s : Cli.State) (now : Nat) (bytes : Bytes) :
 
 -- non-vacuity: window 10, calls 3, 6, 1, 25, 0 → acknowledgements 10 (third call) and 25
 example : runAcks 10 0 [3, 6, 1, 25, 0] = ([none, none, some 10, some 25, none], 0) := by decide
+
+/-! ## session level -/
+
+theorem srv_ack_send_total (s : Srv.State) (hp : 1 ≤ s.ser.maxCs) (n ts : Nat) :
+    ∃ s1 p, Srv.send s (.ack n) ts 0 = .ok (s1, p) := by
+  have hpl : toPayload (.ack n) = .ok (3, be32 n) := rfl
+  have hlen : (be32 n).length ≤ 16777215 := by show 4 ≤ 16777215; omega
+  obtain ⟨ser', p, h⟩ := sendMsg_total s.ser hp hpl hlen ts 0 false false
+  refine ⟨{ s with ser := ser' }, p, ?_⟩
+  unfold Srv.send
+  rw [h]
+
+theorem cli_ack_send_total (s : Cli.State) (hp : 1 ≤ s.ser.maxCs) (n ts : Nat) :
+    ∃ s1 p, Cli.send s (.ack n) ts 0 = .ok (s1, p) := by
+  have hpl : toPayload (.ack n) = .ok (3, be32 n) := rfl
+  have hlen : (be32 n).length ≤ 16777215 := by show 4 ≤ 16777215; omega
+  obtain ⟨ser', p, h⟩ := sendMsg_total s.ser hp hpl hlen ts 0 false false
+  refine ⟨{ s with ser := ser' }, p, ?_⟩
+  unfold Cli.send
+  rw [h]
+
+/-- **C17 at session level, server, every call.**  In every state whose outbound chunk size is ≥ 1 (every
+    reachable state: `C17_server_reachable_call`), for every `handle_input` call — whatever the bytes
+    are, valid or not, and whether the call ends in results or in an error:
+    * the counter after the call is the acknowledgement step's (`ackStep` of the window known BEFORE the
+      call, the counter before the call and the call's size);
+    * if no acknowledgement is due the call is the plain drain of the bytes;
+    * if one is due (`some n`) it is serialized first — the session's serializer emits exactly the
+      Acknowledgement message (type 3, stream 0, payload `be32 n`) as packet `p` — and the call is the
+      drain with `p` put in front of its results. -/
+theorem C17_server_every_call (s : Srv.State) (hp : 1 ≤ s.ser.maxCs) (now : Nat) (bytes : Bytes) :
+    (Srv.handleInput s now bytes).1.since = (ackStep s.window s.since bytes.length).1 ∧
+    ((ackStep s.window s.since bytes.length).2 = none →
+      Srv.handleInput s now bytes =
+        SrvPart.drain { s with since := (ackStep s.window s.since bytes.length).1 } now bytes) ∧
+    (∀ n, (ackStep s.window s.since bytes.length).2 = some n →
+      ∃ s1 p, Srv.send s (.ack n) (epoch now) 0 = .ok (s1, p) ∧
+        Emits s.ser s1.ser [(p, AckHop.ackMsg n now)] ∧
+        Srv.handleInput s now bytes =
+          SrvPart.mapOk [.out p] (SrvPart.drain { s1 with since := (ackStep s.window s.since bytes.length).1 } now bytes)) := by
+  have hack : ∀ n, (ackStep s.window s.since bytes.length).2 = some n →
+      ∃ s1 p, Srv.send s (.ack n) (epoch now) 0 = .ok (s1, p) ∧
+        Emits s.ser s1.ser [(p, AckHop.ackMsg n now)] ∧
+        Srv.handleInput s now bytes =
+          SrvPart.mapOk [.out p] (SrvPart.drain { s1 with since := (ackStep s.window s.since bytes.length).1 } now bytes) := by
+    intro n hn
+    obtain ⟨s1, p, hs⟩ := srv_ack_send_total s hp n (epoch now)
+    obtain ⟨typ, body, hpl, hem, _⟩ := srv_send_exact hs trivial (epoch_lt now) (by decide)
+    simp only [toPayload, Except.ok.injEq, Prod.mk.injEq] at hpl
+    obtain ⟨rfl, rfl⟩ := hpl
+    exact ⟨s1, p, hs, hem, AckHop.srv_input_with_ack s s1 now bytes n p hn hs⟩
+  refine ⟨?_, C15.C15_server_input_is_drain s now bytes, hack⟩
+  rcases AckFrame.srv_handleInput_since s now bytes with h | ⟨n, e, hn, he, _⟩
+  · exact h
+  · obtain ⟨s1, p, _, _, hin⟩ := hack n hn
+    rw [hin]
+    unfold SrvPart.mapOk SrvPart.drain
+    exact AckFrame.srv_msgLoop_since _ _ _ _
+
+/-- the same for the client session -/
+theorem C17_client_every_call (s : Cli.State) (hp : 1 ≤ s.ser.maxCs) (now : Nat) (bytes : Bytes) :
+    (Cli.handleInput s now bytes).1.since = (ackStep s.window s.since bytes.length).1 ∧
+    ((ackStep s.window s.since bytes.length).2 = none →
+      Cli.handleInput s now bytes =
+        CliPart.drain { s with since := (ackStep s.window s.since bytes.length).1 } now bytes) ∧
+    (∀ n, (ackStep s.window s.since bytes.length).2 = some n →
+      ∃ s1 p, Cli.send s (.ack n) (epoch now) 0 = .ok (s1, p) ∧
+        Emits s.ser s1.ser [(p, AckHop.ackMsg n now)] ∧
+        Cli.handleInput s now bytes =
+          CliPart.mapOk [.out p] (CliPart.drain { s1 with since := (ackStep s.window s.since bytes.length).1 } now bytes)) := by
+  have hack : ∀ n, (ackStep s.window s.since bytes.length).2 = some n →
+      ∃ s1 p, Cli.send s (.ack n) (epoch now) 0 = .ok (s1, p) ∧
+        Emits s.ser s1.ser [(p, AckHop.ackMsg n now)] ∧
+        Cli.handleInput s now bytes =
+          CliPart.mapOk [.out p] (CliPart.drain { s1 with since := (ackStep s.window s.since bytes.length).1 } now bytes) := by
+    intro n hn
+    obtain ⟨s1, p, hs⟩ := cli_ack_send_total s hp n (epoch now)
+    obtain ⟨typ, body, hpl, hem, _⟩ := cli_send_exact hs trivial (epoch_lt now) (by decide)
+    simp only [toPayload, Except.ok.injEq, Prod.mk.injEq] at hpl
+    obtain ⟨rfl, rfl⟩ := hpl
+    exact ⟨s1, p, hs, hem, AckHop.cli_input_with_ack s s1 now bytes n p hn hs⟩
+  refine ⟨?_, C15.C15_client_input_is_drain s now bytes, hack⟩
+  rcases AckFrame.cli_handleInput_since s now bytes with h | ⟨n, e, hn, he, _⟩
+  · exact h
+  · obtain ⟨s1, p, _, _, hin⟩ := hack n hn
+    rw [hin]
+    unfold CliPart.mapOk CliPart.drain
+    exact AckFrame.cli_msgLoop_since _ _ _ _
+
+/-- every state a server session reaches (any configuration the library accepts, any history of inputs
+    and application calls with 32-bit arguments; K2 histories excluded as in C18) has outbound chunk size
+    ≥ 1, so `C17_server_every_call` applies to every call of every history -/
+theorem C17_server_reachable_call (c : Srv.Config) (now : Nat) (s0 : Srv.State) (rs0 : List Srv.Res)
+    (ops : List SrvEmit.Op) (hnew : Srv.new c now = .ok (s0, rs0)) (hw : ∀ op ∈ ops, op.WF)
+    (hk : SrvEmit.ErrKeepsSer s0 ops) (now' : Nat) (bytes : Bytes) :
+    (Srv.handleInput (SrvEmit.run s0 ops).1 now' bytes).1.since =
+      (ackStep (SrvEmit.run s0 ops).1.window (SrvEmit.run s0 ops).1.since bytes.length).1 :=
+  (C17_server_every_call _ (Safe.S.reach c now s0 rs0 ops hnew hw hk).2 now' bytes).1
+
+theorem C17_client_reachable_call (cfg : Cli.Config) (ops : List CliEmit.Op) (hw : ∀ op ∈ ops, op.WF)
+    (hk : CliEmit.ErrKeepsSer { cfg := cfg } ops) (now' : Nat) (bytes : Bytes) :
+    (Cli.handleInput (CliEmit.run { cfg := cfg } ops).1 now' bytes).1.since =
+      (ackStep (CliEmit.run { cfg := cfg } ops).1.window (CliEmit.run { cfg := cfg } ops).1.since bytes.length).1 :=
+  (C17_client_every_call _ (Safe.C.reach cfg ops hw hk).2 now' bytes).1
+
+/-- hence, in every reachable server state with a known window `w ≥ 1`, fewer than `w` bytes are
+    outstanding after EVERY call — whatever the bytes were and however the call ended -/
+theorem C17_server_reachable_outstanding_lt (c : Srv.Config) (now : Nat) (s0 : Srv.State) (rs0 : List Srv.Res)
+    (ops : List SrvEmit.Op) (hnew : Srv.new c now = .ok (s0, rs0)) (hw : ∀ op ∈ ops, op.WF)
+    (hk : SrvEmit.ErrKeepsSer s0 ops) (now' : Nat) (bytes : Bytes) (w : Nat) (hw1 : 1 ≤ w)
+    (hwin : (SrvEmit.run s0 ops).1.window = some w) :
+    (Srv.handleInput (SrvEmit.run s0 ops).1 now' bytes).1.since < w := by
+  rw [C17_server_reachable_call c now s0 rs0 ops hnew hw hk now' bytes, hwin]
+  exact C17_outstanding_lt w hw1 _ _
+
+theorem C17_client_reachable_outstanding_lt (cfg : Cli.Config) (ops : List CliEmit.Op) (hw : ∀ op ∈ ops, op.WF)
+    (hk : CliEmit.ErrKeepsSer { cfg := cfg } ops) (now' : Nat) (bytes : Bytes) (w : Nat) (hw1 : 1 ≤ w)
+    (hwin : (CliEmit.run { cfg := cfg } ops).1.window = some w) :
+    (Cli.handleInput (CliEmit.run { cfg := cfg } ops).1 now' bytes).1.since < w := by
+  rw [C17_client_reachable_call cfg ops hw hk now' bytes, hwin]
+  exact C17_outstanding_lt w hw1 _ _
+
+/-- **the window comes from the peer only** (server): handling one decoded message never touches the
+    counter, and changes the window exactly when the message is a Window Acknowledgement Size message —
+    to the value it announces.  (`announced w m` is `some n` for `.windowAck n` and `w` for every other
+    message: Set Peer Bandwidth, commands, data, media, control messages all leave it alone.) -/
+theorem C17_server_window_from_peer_only (s s' : Srv.State) (now : Nat) (p : Msg) (m : RtmpMsg) (rs : List Srv.Res)
+    (h : Srv.handleMessage s now p m = .ok (s', rs)) :
+    s'.window = AckFrame.announced s.window m ∧ s'.since = s.since :=
+  AckFrame.srv_handleMessage s s' now p m rs h
+
+/-- the same for the client, for every outcome of handling the message (the client model returns the
+    state on errors too) -/
+theorem C17_client_window_from_peer_only (s : Cli.State) (now : Nat) (p : Msg) (m : RtmpMsg) :
+    (Cli.handleMessage s now p m).1.window = AckFrame.announced s.window m ∧
+    (Cli.handleMessage s now p m).1.since = s.since :=
+  AckFrame.cli_handleMessage s now p m
+
+/-- the message loop never changes the counter, whether it ends in results or in an error -/
+theorem C17_server_loop_leaves_counter (f : Nat) (s : Srv.State) (now : Nat) (acc : List Srv.Res) :
+    (Srv.msgLoop f s now acc).1.since = s.since := AckFrame.srv_msgLoop_since f s now acc
+
+theorem C17_client_loop_leaves_counter (f : Nat) (s : Cli.State) (now : Nat) (acc : List Cli.Res) :
+    (Cli.msgLoop f s now acc).1.since = s.since := AckFrame.cli_msgLoop_since f s now acc
+
+/-- no application call changes the window or the counter (server: accept, reject, media, metadata,
+    ping, finish — the whole public API besides `handle_input`) -/
+theorem C17_server_calls_leave_counter (s : Srv.State) (op : SrvEmit.Op) (h : ∀ now b, op ≠ .input now b) :
+    (SrvEmit.apply s op).1.window = s.window ∧ (SrvEmit.apply s op).1.since = s.since := by
+  cases op with
+  | input now b => exact absurd rfl (h now b)
+  | accept now id => exact AckFrame.srv_acceptRequest s now id
+  | reject now id code desc => exact AckFrame.srv_rejectRequest s now id code desc
+  | media v sid d ts drop => exact AckFrame.srv_sendMedia s v sid d ts drop
+  | metadata now sid m => exact AckFrame.srv_sendMetadata s now sid m
+  | ping now => exact AckFrame.srv_sendPing s now
+  | finish now sid => exact AckFrame.srv_finishPlaying s now sid
+
+theorem C17_client_calls_leave_counter (s : Cli.State) (op : CliEmit.Op) (h : ∀ now b, op ≠ .input now b) :
+    (CliEmit.apply s op).1.window = s.window ∧ (CliEmit.apply s op).1.since = s.since := by
+  cases op with
+  | input now b => exact absurd rfl (h now b)
+  | connect now app => exact AckFrame.cli_requestConnection s now app
+  | request now p => exact AckFrame.cli_requestStream s now p
+  | stop now play => exact AckFrame.cli_stop s now play
+  | ping now => exact AckFrame.cli_sendPing s now
+  | metadata now m => exact AckFrame.cli_publishMetadata s now m
+  | media v d ts drop => exact AckFrame.cli_publishMedia s v d ts drop
+
+/-- **"after the peer has announced a window of W"** (server): the peer's serializer and the session's
+    deserializer in step, the peer emits `xs`, the bytes arrive in one call and every message is handled
+    (with or without an acknowledgement due in that call): after the call the window in force is the LAST
+    one announced in `xs` (the old one if none was) and the counter is the acknowledgement step's.  With
+    `C17_server_every_call` for the next call: the window used there is the one the peer announced last,
+    and counting starts with that next call. -/
+theorem C17_server_window_is_last_announced {ser ser' : Ser.State} {v : Srv.State} {xs : List (Ser.Packet × Msg)}
+    (now : Nat) (hl : Linked ser v.des) (he : Emits ser ser' xs) :
+    (∀ since', ackStep v.window v.since (wire xs).length = (since', none) →
+      ∀ sF rs, SrvSteps.steps { v with since := since' } now (msgs xs) = .ok (sF, rs) →
+      (Srv.handleInput v now (wire xs)).1.window = AckFrame.lastWin v.window (msgs xs) ∧
+      (Srv.handleInput v now (wire xs)).1.since = since') ∧
+    (∀ since' n, ackStep v.window v.since (wire xs).length = (since', some n) →
+      ∀ v1 p sF rs, Srv.send v (.ack n) (epoch now) 0 = .ok (v1, p) →
+      SrvSteps.steps { v1 with since := since' } now (msgs xs) = .ok (sF, rs) →
+      (Srv.handleInput v now (wire xs)).1.window = AckFrame.lastWin v.window (msgs xs) ∧
+      (Srv.handleInput v now (wire xs)).1.since = since') := by
+  obtain ⟨h1, h2⟩ := AckHop.srv_input_hop now hl he
+  constructor
+  · intro since' hk sF rs hst
+    obtain ⟨core', hin, _⟩ := h1 since' hk sF rs hst
+    obtain ⟨hw, hs⟩ := AckFrame.srv_steps_window now _ _ _ _ hst
+    rw [hin]
+    exact ⟨hw, hs⟩
+  · intro since' n hk v1 p sF rs hsend hst
+    obtain ⟨core', hin, _⟩ := h2 since' n hk v1 p sF rs hsend hst
+    obtain ⟨hw, hs⟩ := AckFrame.srv_steps_window now _ _ _ _ hst
+    rw [hin]
+    refine ⟨?_, hs⟩
+    show sF.window = _
+    rw [hw]
+    show AckFrame.lastWin v1.window _ = _
+    rw [(AckFrame.same_send hsend).1]
+
+theorem C17_client_window_is_last_announced {ser ser' : Ser.State} {c : Cli.State} {xs : List (Ser.Packet × Msg)}
+    (now : Nat) (hl : Linked ser c.des) (he : Emits ser ser' xs) :
+    (∀ since', ackStep c.window c.since (wire xs).length = (since', none) →
+      ∀ sF rs, CliSteps.steps { c with since := since' } now (msgs xs) = .ok (sF, rs) →
+      (Cli.handleInput c now (wire xs)).1.window = AckFrame.lastWin c.window (msgs xs) ∧
+      (Cli.handleInput c now (wire xs)).1.since = since') ∧
+    (∀ since' n, ackStep c.window c.since (wire xs).length = (since', some n) →
+      ∀ c1 p sF rs, Cli.send c (.ack n) (epoch now) 0 = .ok (c1, p) →
+      CliSteps.steps { c1 with since := since' } now (msgs xs) = .ok (sF, rs) →
+      (Cli.handleInput c now (wire xs)).1.window = AckFrame.lastWin c.window (msgs xs) ∧
+      (Cli.handleInput c now (wire xs)).1.since = since') := by
+  obtain ⟨h1, h2⟩ := AckHop.cli_input_hop now hl he
+  constructor
+  · intro since' hk sF rs hst
+    obtain ⟨core', hin, _⟩ := h1 since' hk sF rs hst
+    obtain ⟨hw, hs⟩ := AckFrame.cli_steps_window now _ _ _ _ hst
+    rw [hin]
+    exact ⟨hw, hs⟩
+  · intro since' n hk c1 p sF rs hsend hst
+    obtain ⟨core', hin, _⟩ := h2 since' n hk c1 p sF rs hsend hst
+    obtain ⟨hw, hs⟩ := AckFrame.cli_steps_window now _ _ _ _ hst
+    rw [hin]
+    refine ⟨?_, hs⟩
+    show sF.window = _
+    rw [hw]
+    show AckFrame.lastWin c1.window _ = _
+    rw [(AckFrame.same_sendC hsend).1]
+
+-- non-vacuity of the "last announced" reading: two announcements, the second one counts
+example : AckFrame.lastWin none [{ ts := 0, typ := 5, msid := 0, data := be32 100 },
+      { ts := 0, typ := 6, msid := 0, data := be32 7 ++ [2] }, { ts := 0, typ := 5, msid := 0, data := be32 2500 }] = some 2500 := by
+  decide
 
 end Rml.C17
